@@ -34,6 +34,15 @@ def lines_for(tier, rng):
             for off in range(4):
                 for count in (20, 40, 70, 130, 300, 700, 2100, 9000):
                     out.append(f"{w} " + "a" * off + ch * count)
+    # self-similar lines: a command whose argument is a command (the replication envelope `rp <id> <request>` is handled by calling the
+    # request handler again) nested to depths a stack does not survive if the recursion follows the input
+    for depth in (3, 50, 400, 3000, 30000):
+        for pad in ("", "\\n", " ", ";"):
+            out.append(("rp 1 " + pad) * depth + "get k")
+        out.append("rp 1 " * depth + "set k v")
+        out.append("rp 1 " * depth)
+        out.append("election candidate 1 " * min(depth, 3000) + "x")
+        out.append("resolve 1 t k 1 " * min(depth, 3000) + "v")
     return out
 
 class C10(Spec):
@@ -42,7 +51,7 @@ class C10(Spec):
     theorems = ["Nun.C10_panic_sites_justified", "Nun.C10_replicate_needs_selection"]
     rule = ("every command word (and unknown ones) x 0-1 arguments exhaustively and 2-5 arguments seeded from the quantifier's token alphabet "
             "(empty, non-numeric, i32/u64/u128 boundaries, $$ keys, ';', newline, 600-byte token, non-ASCII), plus random printable/UTF-8 strings, plus long lines (20-9000 characters) of 2-, 3- and 4-byte UTF-8 characters at every byte alignment (so that a character straddles every possible byte offset); "
-            "every snapshot / replicate-snapshot form over database lists (known, unknown, mixed, both orders) and the replicate-* commands with the node's replication loop pumped after each; "
+            "the replication envelope nested 3 to 30000 deep (blank, newline and `;` padded); every command word with its arguments dropped one by one (no key, empty key, blanks only) and every snapshot / replicate-snapshot form over database lists (known, unknown, mixed, both orders) and the replicate-* commands with the node's replication loop pumped after each; "
             "each line runs on an unauthenticated, an admin and an arbiter-database session, followed by a probe set/get from another client; "
             "catch_unwind around process_request, lock-poison flags in the dump. non-trivial = line is not answered 'unknown command'; distinct by trace hash")
 
@@ -74,6 +83,15 @@ class C10(Spec):
             for dbn in ("t", "ghost", "ta"):
                 for rest in ("k 1 v", "k", "k x", ""):
                     cases.append(SETUP_P + [f"C 1 {w} {dbn} {rest}".rstrip(), "PUMP"] + PROBE + ["PUMP"])
+        # every command word with its arguments dropped one by one (no key, an empty key, only blanks, a number where the key should be): what
+        # the client-side parser accepts, the loop must digest too — it parses the line the command printed for it once more
+        from checks import cmdgen
+        for w in cmdgen.WORDS:
+            forms = [w, w + " ", w + "  ", w + "  5", w + " k", w + " k ", w + " k  ", w + "  k v", w + " 5", w + " ; ", w + " k ;x"]
+            for v in cmdgen.VARIANTS[w]:
+                forms.append(v.replace("{k}", "k1")); forms.append(v.replace("{k}", ""))
+            for form in dict.fromkeys(forms):
+                cases.append(SETUP_P + [f"C 1 {form}", "PUMP"] + PROBE + ["PUMP", "C 1 set after 1", "PUMP"] + PROBE)
         # stateful numeric boundaries: a stored boundary value / version followed by a boundary delta
         nums = [t for t in TOKENS if re.fullmatch(r"[+-]?[0-9]+", t)]
         for b in nums:
